@@ -235,6 +235,58 @@ func streakPlan(seed uint64, tier string, g int) *Plan {
 	return p
 }
 
+// siblingsPlan: one caller, one buffer (always the same address), and a handful of
+// inputs that a memo keyed too coarsely cannot tell apart - same family, same
+// examined length, other variant / filler / position - detected in alternation.
+func siblingsPlan(r *core.Rand) *Plan {
+	p := &Plan{Prop: "C04", MaxSteps: 60000000, Pool: []string{"lifo", "adversarial"}[r.Intn(2)], Sched: core.SchedSpec{Kind: "random"}, Slots: 4}
+	base := c04Input(r)
+	for tries := 0; tries < 6 && (base.N > 20000 || base.Fam == "empty"); tries++ {
+		base = c04Input(r)
+	}
+	sibs := []inputs.Input{base}
+	for i, n := 0, r.Range(2, 4); i < n; i++ {
+		s := base
+		switch r.Intn(4) {
+		case 0:
+			s.V = base.V + 1 + i
+		case 1:
+			s.Seed = base.Seed + 1 + uint64(i)
+		case 2:
+			s.V, s.Seed = base.V+1+i, base.Seed+7
+		default:
+			s.V, s.P = base.V+1+i, base.P+1
+		}
+		sibs = append(sibs, s)
+	}
+	// a limit below the shortest of them: the examined headers have one length
+	shortest := len(sibs[0].Bytes())
+	for _, s := range sibs[1:] {
+		if n := len(s.Bytes()); n < shortest {
+			shortest = n
+		}
+	}
+	switch {
+	case shortest > 3072 && r.Chance(1, 2):
+		p.Limit0 = 3072
+	case shortest > 2:
+		p.Limit0 = uint32(r.Range(shortest/2+1, shortest))
+	default:
+		p.Limit0 = 3072
+	}
+	var ops []Op
+	for i, n := 0, r.Range(8, 16); i < n; i++ {
+		in := sibs[r.Intn(len(sibs))]
+		op := Op{Kind: "detect", In: &in, Reuse: true}
+		if r.Chance(1, 8) {
+			op = Op{Kind: "reader", In: &in, Del: randDelivery(r, len(in.Bytes()), 0)}
+		}
+		ops = append(ops, op)
+	}
+	p.Tasks = [][]Op{ops}
+	return p
+}
+
 func (c *c04) Plan(seed uint64, tier string, worker, workers, idx int) *Plan {
 	if idx < 1000000 {
 		g := worker + idx*workers
@@ -255,6 +307,9 @@ func (c *c04) Plan(seed uint64, tier string, worker, workers, idx int) *Plan {
 	r := core.NewRand(core.Mix(seed, 0xc04, uint64(worker), uint64(idx)))
 	if r.Chance(1, 60) {
 		return floodPlan(r, "C04")
+	}
+	if r.Chance(1, 10) {
+		return siblingsPlan(r)
 	}
 	p := &Plan{Prop: "C04", Limit0: c04Limits[r.Intn(len(c04Limits))], MaxSteps: 60000000}
 	if r.Chance(1, 12) {
